@@ -165,6 +165,31 @@ def run(ctx, prog, cfg, rule="KIND1", only=None):
                     ctx.check(not bad, rule, f.short, "%s(%s, %s, _)" % (cs, mir.fmt(args[0], f)[:30], mir.fmt(args[1], f)[:30]), short_loc(f, b),
                               "`%s` is applied to (%s, %s): its first operand must be a physical position and its second a logical "
                               "offset" % (cs, ka or "?", kb or "?"), "%s(%s, %s)" % (cs, ka or "?", kb or "?"), cfg)
+            # (5) slicing / splitting / rotating the backing array itself
+            p_ = mir.callee_path(t) or ""
+            if ("Index<I>>::index" in p_ or "IndexMut<I>>::index_mut" in p_ or p_ in ("<[T]>::split_at", "<[T]>::split_at_mut", "<[T]>::rotate_left", "<[T]>::rotate_right")) and len(args) == 2:
+                base = args[0]
+                direct = any(isinstance(s, tuple) and s and s[0] == "place" and s[2] and s[2][0] == "items" for s in mir.walk(base)) and not any(
+                    isinstance(s, tuple) and s and s[0] == "call" and s[1] not in ("NonNull::as_ref", "NonNull::as_mut") for s in mir.walk(base))
+                if direct:
+                    bounds = list(args[1][3]) if isinstance(args[1], tuple) and args[1][0] == "agg" else [("position", args[1])]
+                    for bname, be in bounds:
+                        kb = kind(f, be)
+                        if not kb:
+                            continue
+                        n += 1
+                        ok = kb in (PHYS, CONST, CAP)
+                        why = "bound `%s` is a %s" % (bname, kb)
+                        if not ok and kb == LEN and bname == "end":
+                            # `&mut items[..size]` is the whole sequence once `start` has been set to 0
+                            zero_store = [(bb, ii) for bb, ii, st, it in f.positions(False) if not it and st["k"] == "assign" and mir.place_has_deref(st["place"])
+                                          and mir.place_fields(st["place"])[-1:] == ["start"] and mir.strip_casts(f.rvalue_expr(st["rv"], bb, ii)) == ("int", 0)]
+                            if zero_store and all(f.pos_dominates(z, (b, nst), False) for z in zero_store[:1]):
+                                ok = True
+                                why = "prefix [..size] after `start = 0` (bb%d)" % zero_store[0][0]
+                        ctx.check(ok, rule, f.short, "storage %s by %s `%s`" % (p_.split("::")[-1], bname, mir.fmt(be, f)[:40]), short_loc(f, b),
+                                  "the backing array itself is sliced/split/rotated at a %s (`%s`): its slots are numbered physically, a logical "
+                                  "index or a length addresses the wrong slots whenever `start` is not 0" % (kb, mir.fmt(be, f)), why, cfg)
             # (2') pointer offsets into the backing array
             if mir.callee_path(t) in ("<*mut T>::add", "<*const T>::add") and len(args) == 2:
                 root_items = any(isinstance(s, tuple) and s and s[0] == "load" and s[2] and s[2][0] == "items" for s in mir.walk(args[0])) or \
